@@ -25,6 +25,9 @@ EXPLANATION = (
     "segment are the same object; every constructor branch of a segment class must wrap each stored point in its own Point(...) (a "
     "chained assignment or a bare parameter makes one object be multiplied twice). "
     "Not decided: pointwise equality for arcs (values); R02.6 is the static shadow of that defect."
+    ' R02.4 also carries the identity test (shared with C04 R04.5): Matrix.is_identity compares all six entries'
+    ' - spelled out or as all(... zip(entries, constants)), where the shorter operand decides - because every'
+    ' decomposition skips the multiplication when it answers true.'
 )
 TECHNIQUE = (
     "static analysis (no execution): field-coverage lint over segment classes (constructor fields vs fields touched by *=, __getitem__, __copy__, __eq__); def-use closure for copy-then-multiply; operator type-dispatch following over the class hierarchy; exact canonical forms for reify algebra"
@@ -183,6 +186,10 @@ def _copy_of_self(n):
 
 
 def lazy(ctx):
+    # the decompositions skip the multiplication when transform.is_identity(): that test is part of "X*M is the M-image"
+    from .c04 import identity_test
+
+    identity_test(ctx, "R02.4")
     fn = ctx.fn("Transformable.__imul__", "R02.4")
     other = fn.args.args[1].arg
     aug = [s for s in ast.walk(fn) if isinstance(s, ast.AugAssign)]
